@@ -616,6 +616,91 @@ var stateVarRe = regexp.MustCompile(`(^|[^A-Za-z0-9])(_state|state_)([^A-Za-z0-9
 var stateCmpRe = regexp.MustCompile(`(_state|state_)\s*(&\s*~1\s*)?(!=|~=|==)`)
 var plainReturnRe = regexp.MustCompile(`(^|[^A-Za-z_])return([^A-Za-z_]|$)`)
 
+// emittedMethods splits the emission rows of a generator into the methods they emit (a method starts at an emission
+// that looks like a function header, or where the enclosing closure changes).
+func emittedMethods(rows []gee.Row) [][]gee.Row {
+	var emits []gee.Row
+	for _, r := range rows {
+		if r.Kind == "emit" {
+			emits = append(emits, r)
+		}
+	}
+	var out [][]gee.Row
+	start := -1
+	for i, r := range emits {
+		if methodHeaderRe.MatchString(r.Tmpl) || (i > 0 && emits[i-1].In != r.In) {
+			if start >= 0 {
+				out = append(out, emits[start:i])
+			}
+			start = i
+		}
+	}
+	if start >= 0 {
+		out = append(out, emits[start:])
+	}
+	return out
+}
+
+// B4: a generated batch read hands back exactly the items it read. The fallback implementation of
+// Read<Step>Impl(std::vector<T>& values) fills a reused vector slot by slot; when the single-item read reports the
+// end of the stream it must cut the vector down to the number of items read (`values.resize(i)`) before returning
+// false — otherwise items of the previous batch stay behind the new ones.
+func ruleFallbackBatchTruncates(c *core.Ctx) {
+	const rule = "B4"
+	c.Rule(rule, "cpp/protocols: in the emitted fallback batch reader (Read…Impl(std::vector<T>& values)) the end-of-stream branch emits `values.resize(i);` immediately before `return false;`, i being the count of items read", 1)
+	rows, d := flatRows(c, "internal/cpp/protocols", "WriteProtocols")
+	if d == nil {
+		rows, d = flatRows(c, "internal/cpp/protocols", "writeDefinitions")
+	}
+	if d == nil {
+		c.Undecided(rule, "anchor/cpp/protocols.WriteProtocols", 0, "anchor not found")
+		return
+	}
+	norm := func(t string) string {
+		if i := strings.Index(t, "//"); i >= 0 {
+			t = t[:i]
+		}
+		return strings.Join(strings.Fields(t), "")
+	}
+	n := 0
+	for _, m := range emittedMethods(rows) {
+		hdr := m[0]
+		isImpl := false
+		for _, a := range hdr.Args {
+			if strings.Contains(a, "ProtocolReadImplMethodName(") {
+				isImpl = true
+			}
+		}
+		if !isImpl || !strings.Contains(hdr.Tmpl, "std::vector<%s>& values)") || !strings.Contains(hdr.Tmpl, "{") {
+			continue
+		}
+		n++
+		ok, at := false, hdr.Pos
+		sawReturnFalse := false
+		for i, r := range m {
+			if norm(r.Tmpl) != "returnfalse;" {
+				continue
+			}
+			sawReturnFalse = true
+			at = r.Pos
+			// the statement emitted right before it (braces and blank emissions skipped)
+			for j := i - 1; j > 0; j-- {
+				t := norm(m[j].Tmpl)
+				if t == "" || t == "{" || t == "}" {
+					continue
+				}
+				ok = t == "values.resize(i);"
+				break
+			}
+		}
+		c.Check(ok && sawReturnFalse, rule, "fallback batch reader/truncate before reporting the end", at, "`values.resize(i);` precedes `return false;`",
+			"the fallback batch reader does not cut `values` down to the items read before it reports the end of the stream: with a reused vector the last batch keeps items of the previous one")
+	}
+	if n == 0 {
+		c.Undecided(rule, "fallback batch reader", d.Pos(), "the emission of Read…Impl(std::vector<T>& values) was not found")
+	}
+}
+
 // S2: no way around the state guard. In every emitted method of a generated protocol reader/writer that contains
 // a comparison of the state variable, nothing that leaves the method normally (`return`) is emitted in front of
 // the first emission that mentions the state: a fast path in front of the guard accepts the call in any state.
